@@ -2121,7 +2121,14 @@ class Evaluator:
             return TOP
         if name == "getattr":
             if isinstance(args[1], str):
-                return self.getattr(args[0], args[1], node)
+                if len(args) > 2 and isinstance(args[0], (dict, list, tuple, set, frozenset, str, int, float, type(None))) and not isinstance(args[0], bool) and not hasattr(type(args[0]), args[1]):
+                    return args[2]  # a Python container / constant has no such attribute: the default is the answer
+                try:
+                    return self.getattr(args[0], args[1], node)
+                except Raised as r:
+                    if len(args) > 2 and r.typ == "AttributeError":
+                        return args[2]
+                    raise
             return TOP
         if name == "id" or name == "hash":
             return TOP
